@@ -6,8 +6,10 @@ import (
 	"fmt"
 	"math/big"
 	"math/rand/v2"
+	"sort"
 
 	"github.com/onflow/crypto"
+	"github.com/onflow/crypto/hash"
 )
 
 type c04In struct {
@@ -16,6 +18,15 @@ type c04In struct {
 	Tag     string   `json:"tag"`
 	Msg     string   `json:"msg"`
 	Salt    uint64   `json:"salt"`
+	// a scalar 00..00 stands for the ZERO private key (only obtainable as AggregateBLSPrivateKeys of x and -x),
+	// whose public key is the identity key and whose signature is the identity signature
+	// PkRoutes: the public key objects are taken from every constructor in turn (decoded, aggregated, removed, ...;
+	// identity keys: constant, decoded, aggregated, removed, PublicKey() of the zero private key)
+	PkRoutes bool `json:"pk_routes,omitempty"`
+	// Out: fixed-output hasher (e.g. an output whose curve image is the point at infinity: every signature
+	// is then the identity signature)
+	Out    string `json:"out,omitempty"`
+	NilMsg bool   `json:"nil_msg,omitempty"`
 }
 
 func init() {
@@ -26,7 +37,7 @@ func init() {
 		PropCheck: "prop_bad_ids",
 		Gen:       c04Gen,
 		Run:       c04Run,
-		Rule:      "multisets of private scalars (duplicates, additive inverses, sums hitting 0, sizes 1..N) and lists of arbitrary E1 encodings (in G1, cofactor torsion, random curve points, infinity, cancelling pairs); the runner also checks permuted and nested aggregation, pk(agg sk) = agg(pks), sig by agg sk = agg(sigs), Remove(Agg(A+B),B) = Agg(A), empty lists, non-BLS keys, malformed signatures at each position; distinct by input; non-trivial if at least two keys or two points",
+		Rule:      "multisets of private scalars (duplicates, additive inverses, sums hitting 0, sizes 1..N) and lists of arbitrary E1 encodings (in G1, cofactor torsion, random curve points, infinity, cancelling pairs); the runner also checks permuted and nested aggregation, pk(agg sk) = agg(pks), sig by agg sk = agg(sigs), Remove(Agg(A+B),B) = Agg(A), empty lists, non-BLS keys, malformed signatures at each position; added by the generator audit: the zero private key (aggregate of x and -x), the identity public key from every constructor and the identity signature INSIDE the lists (first, last, middle, several, alone); public key objects from every constructor (decoded, decoded compressed, aggregate of two halves / of one key / with identity keys, removed from an aggregate, re-decoded private key) as aggregation and removal inputs; private key objects whose public key was never / partly computed before aggregation; E1 sums with doubling (also outside G1), the order-3 point three times, the running sum hitting infinity mid-list, infinity first; hasher outputs whose curve image is the point at infinity (every signature is the identity signature) and with equal halves, nil message, empty tag; every aggregated / nested / left-nested chain / removed-from (at once, key by key, from a decoded copy, from the package identity constant, of identity keys, of keys outside the aggregate and added back) key must encode AND behave as its point (verifies the signature of its keys iff not the identity, the identity signature only if H(m) is infinity); IsBLSSignatureIdentity on non-canonical and wrong-length identity encodings; typed errors with nil and empty lists, non-BLS and nil keys inserted first / middle / last (also as the key removed from), every kind of non-point string (nil, empty, 47/49/96 bytes, flag combinations, infinity with stray bytes incl. the last, x = p, off-curve x) at first / middle / last position and two kinds together with a non-G1 point; earlier results unchanged after later calls, all inputs unmodified, no panic; distinct by input; non-trivial if at least two keys or two points",
 		Shard:     2,
 	})
 }
@@ -47,7 +58,17 @@ func c04Gen(tier string, r *rand.Rand) []Case {
 		for _, k := range ks {
 			s = append(s, hx(fixed(k, 32)))
 		}
-		cs = append(cs, mkcase(fam, c04In{s, pts, fmt.Sprintf("t%d", r.IntN(50)), hx(rbytes(r, r.IntN(40))), r.Uint64()}))
+		cs = append(cs, mkcase(fam, c04In{Scalars: s, Points: pts, Tag: fmt.Sprintf("t%d", r.IntN(50)), Msg: hx(rbytes(r, r.IntN(40))), Salt: r.Uint64()}))
+	}
+	mkIn := func(fam string, ks []*big.Int, in c04In) {
+		for _, k := range ks {
+			in.Scalars = append(in.Scalars, hx(fixed(k, 32)))
+		}
+		in.Salt = r.Uint64()
+		if in.Tag == "" {
+			in.Tag = fmt.Sprintf("t%d", r.IntN(50))
+		}
+		cs = append(cs, mkcase(fam, in))
 	}
 	a, b := rs(), rs()
 	// more than 256 keys / signatures in one aggregation
@@ -66,13 +87,70 @@ func c04Gen(tier string, r *rand.Rand) []Case {
 	// algebraic coincidences inside RemoveBLSPublicKeys(Agg(A+B), B): the aggregated key equals minus the sum
 	// of the removed keys (the subtraction is a doubling), equals that sum (result is the identity), or the
 	// removed keys sum to the identity
-	negm := func(x *big.Int, m int64) *big.Int { return new(big.Int).Mod(new(big.Int).Neg(new(big.Int).Mul(x, big.NewInt(m))), blsR) }
+	negm := func(x *big.Int, m int64) *big.Int {
+		return new(big.Int).Mod(new(big.Int).Neg(new(big.Int).Mul(x, big.NewInt(m))), blsR)
+	}
 	mk("remove-doubling", []*big.Int{negm(b, 2), b}, []string{"g1"})
 	mk("remove-doubling", []*big.Int{negm(big.NewInt(1), 2), big.NewInt(1)}, []string{"g1"})
 	ab := new(big.Int).Mod(new(big.Int).Add(a, b), blsR)
 	mk("remove-doubling-many", []*big.Int{negm(ab, 2), a, b}, []string{"g1"})
 	mk("remove-to-identity", []*big.Int{negm(a, 1), a, b}, []string{"g1"})
 	mk("remove-cancelling-set", []*big.Int{b, a, negm(a, 1)}, []string{"g1"})
+	// ---- families added by the generator audit ----
+	z := big.NewInt(0)
+	// the zero private key / identity public key / identity signature INSIDE the lists, first, last, in the
+	// middle, twice, alone; with the public keys taken from every constructor
+	mkIn("zero-key-inside", []*big.Int{z, a}, c04In{Points: []string{"inf", "g1"}, Msg: "01", PkRoutes: true})
+	mkIn("zero-key-inside", []*big.Int{a, z}, c04In{Points: []string{"g1", "inf"}, Msg: "02"})
+	mkIn("zero-key-inside", []*big.Int{z, a, b, z, rs()}, c04In{Points: []string{"inf", "inf", "random", "inf"}, Msg: "03", PkRoutes: true})
+	mkIn("zero-key-inside", []*big.Int{a, z, new(big.Int).Sub(blsR, a)}, c04In{Points: []string{"torsion", "inf", "neg-prev"}, Msg: "04", PkRoutes: true})
+	mkIn("zero-key-only", []*big.Int{z}, c04In{Points: []string{"inf"}, Msg: "05"})
+	mkIn("zero-key-only", []*big.Int{z, z, z}, c04In{Points: []string{"inf", "inf", "inf"}, Msg: "06", PkRoutes: true})
+	// public key objects from every constructor as aggregation inputs
+	mkIn("key-routes", []*big.Int{rs(), rs(), rs(), rs(), rs(), rs(), rs(), rs(), rs()}, c04In{Points: []string{"g1"}, Msg: "07", PkRoutes: true})
+	mkIn("key-routes", []*big.Int{a, a, new(big.Int).Sub(blsR, a), b}, c04In{Points: []string{"g1", "dup-prev"}, Msg: "08", PkRoutes: true})
+	// E1 coincidences in the signature sum: doubling (also of points outside G1), the order-3 point three times,
+	// the running sum hitting infinity in the middle of the list, infinity first
+	mkIn("points-coincidences", []*big.Int{a}, c04In{Points: []string{"g1", "dup-prev", "dup-prev"}, Msg: "09"})
+	mkIn("points-coincidences", []*big.Int{a}, c04In{Points: []string{"torsion", "dup-prev", "random", "dup-prev"}, Msg: "0a"})
+	mkIn("points-coincidences", []*big.Int{a}, c04In{Points: []string{"order3", "dup-prev", "dup-prev", "g1"}, Msg: "0b"})
+	mkIn("points-coincidences", []*big.Int{a, b}, c04In{Points: []string{"order3", "dup-prev"}, Msg: "0c"})
+	mkIn("points-coincidences", []*big.Int{a, b}, c04In{Points: []string{"g1", "random", "neg-sum", "g1", "neg-sum"}, Msg: "0d"})
+	mkIn("points-coincidences", []*big.Int{a, b}, c04In{Points: []string{"inf", "random", "neg-sum", "inf", "torsion"}, Msg: "0e"})
+	mkIn("points-coincidences", []*big.Int{a}, c04In{Points: []string{"random"}, Msg: "0f"})
+	// hasher outputs of chosen shape: H(m) is the point at infinity (u1 = -u0), so every signature and every
+	// aggregate is the identity signature; equal halves; nil message and empty tag
+	{
+		u := new(big.Int).Mod(new(big.Int).SetBytes(rbytes(r, 64)), blsP)
+		infOut := append(fixed(u, 64), fixed(new(big.Int).Sub(blsP, u), 64)...)
+		eqOut := append(fixed(u, 64), fixed(u, 64)...)
+		mkIn("hasher-output-shapes", []*big.Int{a, b, rs()}, c04In{Points: []string{"g1", "g1", "inf"}, Out: hx(infOut)})
+		mkIn("hasher-output-shapes", []*big.Int{a, new(big.Int).Sub(blsR, a)}, c04In{Points: []string{"g1"}, Out: hx(eqOut)})
+		mkIn("hasher-output-shapes", []*big.Int{a, b}, c04In{Points: []string{"g1"}, NilMsg: true, Tag: "-"})
+	}
+	for i := 0; i < reps; i++ {
+		ks := []*big.Int{}
+		for j := 0; j < 2+r.IntN(maxN); j++ {
+			switch r.IntN(6) {
+			case 0:
+				ks = append(ks, z)
+			case 1:
+				if len(ks) > 0 {
+					ks = append(ks, new(big.Int).Mod(new(big.Int).Neg(ks[r.IntN(len(ks))]), blsR))
+					break
+				}
+				fallthrough
+			default:
+				ks = append(ks, rs())
+			}
+		}
+		var pts []string
+		allKinds := append(append([]string{}, kinds...), "dup-prev", "order3", "neg-sum")
+		for j := 0; j < 1+r.IntN(6); j++ {
+			pts = append(pts, allKinds[r.IntN(len(allKinds))])
+		}
+		mkIn("random-with-routes", ks, c04In{Points: pts, Msg: hx(rbytes(r, r.IntN(40))), PkRoutes: true})
+	}
 	for i := 0; i < reps; i++ {
 		n := 1 + r.IntN(maxN)
 		var ks []*big.Int
@@ -88,31 +166,84 @@ func c04Gen(tier string, r *rand.Rand) []Case {
 	return cs
 }
 
+// c04ZeroKey returns the zero private key (the package offers it only as an aggregate of x and -x)
+func c04ZeroKey(rr *rand.Rand) (crypto.PrivateKey, error) {
+	x := new(big.Int).Mod(new(big.Int).SetBytes(rbytes(rr, 40)), new(big.Int).Sub(blsR, big.NewInt(1)))
+	x.Add(x, big.NewInt(1))
+	a, e1 := crypto.DecodePrivateKey(crypto.BLSBLS12381, fixed(x, 32))
+	b, e2 := crypto.DecodePrivateKey(crypto.BLSBLS12381, fixed(new(big.Int).Sub(blsR, x), 32))
+	if e1 != nil || e2 != nil {
+		return nil, fmt.Errorf("%v %v", e1, e2)
+	}
+	return crypto.AggregateBLSPrivateKeys([]crypto.PrivateKey{a, b})
+}
+
 func c04Run(c Case) (Result, error) {
 	var in c04In
 	if err := json.Unmarshal(c.Input, &in); err != nil {
 		return Result{}, err
 	}
 	rr := rand.New(rand.NewPCG(in.Salt, 0x04))
-	hs := crypto.NewExpandMsgXOFKMAC128(in.Tag)
+	tag := in.Tag
+	if tag == "-" {
+		tag = ""
+	}
+	var hs hash.Hasher = crypto.NewExpandMsgXOFKMAC128(tag)
+	if in.Out != "" {
+		hs = &fixedHasher{unhx(in.Out)}
+	}
 	msg := unhx(in.Msg)
+	if in.NilMsg {
+		msg = nil
+	}
 	var sks []crypto.PrivateKey
 	var pks []crypto.PublicKey
 	var sigs []crypto.Signature
-	for _, s := range in.Scalars {
-		sk, err := crypto.DecodePrivateKey(crypto.BLSBLS12381, unhx(s))
+	idRoutes := []string{"", "decoded", "aggregated", "removed", "zero-sk"}
+	keyRoutes := []string{"", "decoded", "agg-split", "removed", "agg-single", "agg-with-identity", "removed-identity", "via-encoded-sk", "decoded-compressed"}
+	for i, s := range in.Scalars {
+		var sk crypto.PrivateKey
+		var err error
+		sc := new(big.Int).SetBytes(unhx(s))
+		if sc.Sign() == 0 {
+			sk, err = c04ZeroKey(rr)
+		} else {
+			sk, err = crypto.DecodePrivateKey(crypto.BLSBLS12381, unhx(s))
+		}
 		if err != nil {
 			return Result{}, err
 		}
+		var pk crypto.PublicKey = sk.PublicKey()
+		if in.PkRoutes {
+			if sc.Sign() == 0 {
+				if rt := idRoutes[i%len(idRoutes)]; rt != "zero-sk" {
+					pk, err = c02IdentityKey(rt, rr)
+				}
+			} else if rt := keyRoutes[i%len(keyRoutes)]; rt != "" {
+				pk, err = c01RoutePk(rt, sk, sc, rr)
+			}
+			if err != nil {
+				return Result{}, implViolation("public key %d through a package constructor: %v", i, err)
+			}
+		}
 		sks = append(sks, sk)
-		pks = append(pks, sk.PublicKey())
-		sg, _ := sk.Sign(msg, hs)
+		pks = append(pks, pk)
+		sg, err := sk.Sign(msg, hs)
+		if err != nil {
+			return Result{}, implViolation("Sign with key %s: %v", s, err)
+		}
 		sigs = append(sigs, sg)
 	}
 	one, _ := crypto.DecodePrivateKey(crypto.BLSBLS12381, fixed(big.NewInt(1), 32))
 	hEnc, _ := one.Sign(msg, hs)
 	idEnc := crypto.IdentityBLSPublicKey().Encode()
 	idSig := append([]byte{0xC0}, make([]byte, 47)...)
+	hIsInf := bytes.Equal(hEnc, idSig)
+	// snapshots: arguments are read only
+	var pkEnc0, skEnc0, sigs0 [][]byte
+	for i := range sks {
+		pkEnc0, skEnc0, sigs0 = append(pkEnc0, pks[i].Encode()), append(skEnc0, sks[i].Encode()), append(sigs0, append([]byte{}, sigs[i]...))
+	}
 	aggSk, err := crypto.AggregateBLSPrivateKeys(sks)
 	if err != nil {
 		return Result{}, err
@@ -125,12 +256,35 @@ func c04Run(c Case) (Result, error) {
 	if err != nil {
 		return Result{}, err
 	}
+	aggSkEnc0, aggPkEnc0, aggSig0 := aggSk.Encode(), aggPk.Encode(), append([]byte{}, aggSig...)
 	var why []string
 	consistent := true
 	fail := func(s string) { consistent = false; why = append(why, s) }
 	// pk of the aggregated key / signature by the aggregated key
 	if !aggSk.PublicKey().Equals(aggPk) || !bytes.Equal(aggSk.PublicKey().Encode(), aggPk.Encode()) {
 		fail("pk(agg sk) != agg(pks)")
+	}
+	// ... also when the input private keys are fresh objects whose public keys were never / partly computed
+	for _, mask := range []int{0, 0x55555555} {
+		var fresh []crypto.PrivateKey
+		for i, s := range in.Scalars {
+			var sk crypto.PrivateKey
+			if new(big.Int).SetBytes(unhx(s)).Sign() == 0 {
+				sk, _ = c04ZeroKey(rr)
+			} else {
+				sk, _ = crypto.DecodePrivateKey(crypto.BLSBLS12381, unhx(s))
+			}
+			if mask>>(uint(i)%31)&1 == 1 {
+				_ = sk.PublicKey()
+			}
+			fresh = append(fresh, sk)
+		}
+		f, err := crypto.AggregateBLSPrivateKeys(fresh)
+		if err != nil || !bytes.Equal(f.Encode(), aggSkEnc0) || !bytes.Equal(f.PublicKey().Encode(), aggPkEnc0) || !f.PublicKey().Equals(aggPk) {
+			fail(fmt.Sprintf("aggregate of fresh private key objects (public keys computed before: mask %x) differs", mask))
+		} else if fs, _ := f.Sign(msg, hs); !bytes.Equal(fs, aggSig0) {
+			fail("signature by the aggregate of fresh private key objects differs from agg(sigs)")
+		}
 	}
 	sAgg, _ := aggSk.Sign(msg, hs)
 	if !bytes.Equal(sAgg, aggSig) {
@@ -147,9 +301,21 @@ func c04Run(c Case) (Result, error) {
 	x1, _ := crypto.AggregateBLSPrivateKeys(psk)
 	x2, _ := crypto.AggregateBLSPublicKeys(ppk)
 	x3, _ := crypto.AggregateBLSSignatures(psg)
-	if !x1.Equals(aggSk) || !x2.Equals(aggPk) || !bytes.Equal(x3, aggSig) {
+	if !x1.Equals(aggSk) || !x2.Equals(aggPk) || !bytes.Equal(x3, aggSig) || !bytes.Equal(x1.Encode(), aggSkEnc0) || !bytes.Equal(x2.Encode(), aggPkEnc0) {
 		fail("aggregation depends on the order")
 	}
+	isId := bytes.Equal(aggPk.Encode(), idEnc)
+	// the aggregated key as an OBJECT: what it verifies (expected: agg(sigs) iff it is not the identity key; the
+	// identity signature only if moreover H(m) is the point at infinity)
+	behaves := func(name string, k crypto.PublicKey, keyIsId bool, goodSig []byte) {
+		if ok, e := k.Verify(goodSig, msg, hs); e != nil || ok == keyIsId {
+			fail(fmt.Sprintf("%s: the signature of its keys verifies=%v (%v), key is identity=%v", name, ok, e, keyIsId))
+		}
+		if ok, _ := k.Verify(idSig, msg, hs); ok != (!keyIsId && (hIsInf || bytes.Equal(goodSig, idSig))) {
+			fail(fmt.Sprintf("%s: identity signature verifies=%v, key is identity=%v, H(m) is infinity=%v", name, ok, keyIsId, hIsInf))
+		}
+	}
+	behaves("permuted aggregate", x2, isId, aggSig)
 	if len(sks) >= 2 {
 		cut := 1 + rr.IntN(len(sks)-1)
 		l1, _ := crypto.AggregateBLSPrivateKeys(sks[:cut])
@@ -161,8 +327,19 @@ func c04Run(c Case) (Result, error) {
 		s1, _ := crypto.AggregateBLSSignatures(sigs[:cut])
 		s2, _ := crypto.AggregateBLSSignatures(sigs[cut:])
 		n3, _ := crypto.AggregateBLSSignatures([]crypto.Signature{s1, s2})
-		if !n1.Equals(aggSk) || !n2.Equals(aggPk) || !bytes.Equal(n3, aggSig) {
+		if !n1.Equals(aggSk) || !n2.Equals(aggPk) || !bytes.Equal(n3, aggSig) || !bytes.Equal(n1.Encode(), aggSkEnc0) || !bytes.Equal(n2.Encode(), aggPkEnc0) {
 			fail("nested aggregation differs from flat aggregation")
+		}
+		behaves("nested aggregate", n2, isId, aggSig)
+		// three levels, one element at a time from the left (aggregates of aggregates)
+		accK, accP, accS := sks[0], pks[0], sigs[0]
+		for i := 1; i < len(sks) && i < 12; i++ {
+			accK, _ = crypto.AggregateBLSPrivateKeys([]crypto.PrivateKey{accK, sks[i]})
+			accP, _ = crypto.AggregateBLSPublicKeys([]crypto.PublicKey{accP, pks[i]})
+			accS, _ = crypto.AggregateBLSSignatures([]crypto.Signature{accS, sigs[i]})
+		}
+		if len(sks) <= 12 && (!bytes.Equal(accK.Encode(), aggSkEnc0) || !bytes.Equal(accP.Encode(), aggPkEnc0) || !bytes.Equal(accS, aggSig0)) {
+			fail("left-nested chain of pairwise aggregations differs from flat aggregation")
 		}
 		// Remove(Agg(A+B), B) = Agg(A), for the random cut and for every cut position
 		for c2 := 1; c2 < len(pks); c2++ {
@@ -178,12 +355,39 @@ func c04Run(c Case) (Result, error) {
 			// not match the point shows here, not in Equals / Encode)
 			if err == nil {
 				partSig, _ := crypto.AggregateBLSSignatures(sigs[:c2])
-				remIsId := bytes.Equal(rem.Encode(), idEnc)
-				if ok, e := rem.Verify(partSig, msg, hs); e != nil || ok == remIsId {
-					fail(fmt.Sprintf("Remove(Agg(A+B),B) at cut %d: signature of A's keys verifies=%v, key is identity=%v", c2, ok, remIsId))
+				behaves(fmt.Sprintf("Remove(Agg(A+B),B) at cut %d", c2), rem, bytes.Equal(rem.Encode(), idEnc), partSig)
+				// chained removal, one key at a time, and removal from a DECODED copy of the aggregate
+				ch := aggPk
+				for _, k := range pks[c2:] {
+					if ch, err = crypto.RemoveBLSPublicKeys(ch, []crypto.PublicKey{k}); err != nil {
+						break
+					}
 				}
-				if ok, _ := rem.Verify(idSig, msg, hs); ok {
-					fail(fmt.Sprintf("Remove(Agg(A+B),B) at cut %d accepts the identity signature", c2))
+				if err != nil || !bytes.Equal(ch.Encode(), pa.Encode()) || !ch.Equals(rem) {
+					fail(fmt.Sprintf("removing B key by key differs from Remove(Agg(A+B),B) at cut %d", c2))
+				} else {
+					behaves(fmt.Sprintf("key-by-key removal at cut %d", c2), ch, bytes.Equal(ch.Encode(), idEnc), partSig)
+				}
+				if dec, e := crypto.DecodePublicKey(crypto.BLSBLS12381, aggPkEnc0); e == nil {
+					if r2, e := crypto.RemoveBLSPublicKeys(dec, pks[c2:]); e != nil || !bytes.Equal(r2.Encode(), pa.Encode()) {
+						fail(fmt.Sprintf("Remove from a decoded copy of the aggregate differs at cut %d", c2))
+					} else {
+						behaves(fmt.Sprintf("Remove from a decoded aggregate at cut %d", c2), r2, bytes.Equal(r2.Encode(), idEnc), partSig)
+					}
+					if !bytes.Equal(dec.Encode(), aggPkEnc0) {
+						fail("RemoveBLSPublicKeys modified the key it removes from (decoded copy)")
+					}
+				} else {
+					fail("the aggregated key's encoding does not decode")
+				}
+				// removing keys that are not part of the aggregate, then adding them back
+				if r3, e := crypto.RemoveBLSPublicKeys(pa, pks[c2:]); e == nil {
+					back, e2 := crypto.AggregateBLSPublicKeys(append([]crypto.PublicKey{r3}, pks[c2:]...))
+					if e2 != nil || !bytes.Equal(back.Encode(), pa.Encode()) {
+						fail(fmt.Sprintf("Agg(Remove(A,B)+B) != A at cut %d", c2))
+					}
+				} else {
+					fail("Remove of keys outside the aggregate failed")
 				}
 			}
 		}
@@ -195,63 +399,204 @@ func c04Run(c Case) (Result, error) {
 		if ok, _ := all.Verify(idSig, msg, hs); ok {
 			fail("Remove(Agg(A),A) accepts the identity signature")
 		}
+		if ok, _ := all.Verify(aggSig, msg, hs); ok {
+			fail("Remove(Agg(A),A) accepts agg(sigs)")
+		}
 		if !all.Equals(crypto.IdentityBLSPublicKey()) {
 			fail("Remove(Agg(A),A) is not Equal to the identity key")
+		}
+	}
+	// removal from the package's identity key (a shared object) gives -sum and leaves that object alone
+	if neg, err := crypto.RemoveBLSPublicKeys(crypto.IdentityBLSPublicKey(), pks); err != nil {
+		fail("Remove from the identity key failed")
+	} else {
+		back, e2 := crypto.AggregateBLSPublicKeys([]crypto.PublicKey{neg, aggPk})
+		if e2 != nil || !bytes.Equal(back.Encode(), idEnc) {
+			fail("Remove(identity, A) + Agg(A) is not the identity key")
+		}
+		behaves("Remove(identity, A)", neg, isId, e1CompressNegSafe(aggSig))
+		if !bytes.Equal(crypto.IdentityBLSPublicKey().Encode(), idEnc) {
+			fail("RemoveBLSPublicKeys modified the package's identity key")
+		}
+		if ok, _ := crypto.IdentityBLSPublicKey().Verify(e1CompressNegSafe(aggSig), msg, hs); ok {
+			fail("the package's identity key verifies a signature after Remove(identity, A)")
 		}
 	}
 	same, err := crypto.RemoveBLSPublicKeys(aggPk, nil)
 	if err != nil || same != aggPk {
 		fail("Remove with an empty list must return the same key")
 	}
+	if same, err := crypto.RemoveBLSPublicKeys(aggPk, []crypto.PublicKey{}); err != nil || !bytes.Equal(same.Encode(), aggPkEnc0) {
+		fail("Remove with an empty (non-nil) list must return the same key")
+	}
+	// removing identity keys from every constructor changes nothing
+	{
+		var ids []crypto.PublicKey
+		for _, rt := range []string{"", "decoded", "aggregated", "removed"} {
+			k, e := c02IdentityKey(rt, rr)
+			if e != nil {
+				return Result{}, implViolation("identity key through route %q: %v", rt, e)
+			}
+			ids = append(ids, k)
+		}
+		if r4, e := crypto.RemoveBLSPublicKeys(aggPk, ids); e != nil || !bytes.Equal(r4.Encode(), aggPkEnc0) {
+			fail("removing identity keys changes the key")
+		} else {
+			behaves("Remove(Agg(A), identity keys)", r4, isId, aggSig)
+		}
+		if r5, e := crypto.AggregateBLSPublicKeys(append(append([]crypto.PublicKey{ids[1]}, pks...), ids[2], ids[0])); e != nil || !bytes.Equal(r5.Encode(), aggPkEnc0) {
+			fail("aggregating additional identity keys (first and last) changes the key")
+		} else {
+			behaves("Agg(identity, A, identity, identity)", r5, isId, aggSig)
+		}
+		idOnly, e := crypto.AggregateBLSPublicKeys(ids)
+		if e != nil || !bytes.Equal(idOnly.Encode(), idEnc) {
+			fail("aggregate of identity keys is not the identity key")
+		} else if ok, _ := idOnly.Verify(idSig, msg, hs); ok {
+			fail("aggregate of identity keys accepts the identity signature")
+		}
+	}
 	// identity consistency
-	isId := bytes.Equal(aggPk.Encode(), crypto.IdentityBLSPublicKey().Encode())
 	if isId != aggPk.Equals(crypto.IdentityBLSPublicKey()) {
 		fail("identity key comparison inconsistent")
 	}
-	if ok, _ := aggPk.Verify(aggSig, msg, hs); ok == isId {
-		fail("aggregated signature must verify under the aggregated key iff the key is not the identity")
+	behaves("aggregated key", aggPk, isId, aggSig)
+	if crypto.IsBLSSignatureIdentity(aggSig) != bytes.Equal(aggSig, idSig) {
+		fail("IsBLSSignatureIdentity(agg(sigs)) inconsistent with the encoding")
+	}
+	for _, b := range [][]byte{nil, {}, {0xC0}, idSig[:47], append(append([]byte{}, idSig...), 0), append([]byte{0x40}, make([]byte, 47)...), append(append([]byte{0xC0}, make([]byte, 46)...), 1), append([]byte{0xE0}, make([]byte, 47)...)} {
+		if crypto.IsBLSSignatureIdentity(b) {
+			fail(fmt.Sprintf("IsBLSSignatureIdentity accepts %x", b))
+		}
+	}
+	if !crypto.IsBLSSignatureIdentity(idSig) {
+		fail("IsBLSSignatureIdentity rejects the identity signature")
 	}
 	// documented errors
-	if _, e := crypto.AggregateBLSSignatures(nil); !crypto.IsBLSAggregateEmptyListError(e) {
-		fail("empty signature list")
+	for _, l := range [][]crypto.Signature{nil, {}} {
+		if _, e := crypto.AggregateBLSSignatures(l); !crypto.IsBLSAggregateEmptyListError(e) {
+			fail("empty signature list")
+		}
 	}
-	if _, e := crypto.AggregateBLSPrivateKeys(nil); !crypto.IsBLSAggregateEmptyListError(e) {
-		fail("empty private key list")
+	for _, l := range [][]crypto.PrivateKey{nil, {}} {
+		if _, e := crypto.AggregateBLSPrivateKeys(l); !crypto.IsBLSAggregateEmptyListError(e) {
+			fail("empty private key list")
+		}
 	}
-	if _, e := crypto.AggregateBLSPublicKeys(nil); !crypto.IsBLSAggregateEmptyListError(e) {
-		fail("empty public key list")
+	for _, l := range [][]crypto.PublicKey{nil, {}} {
+		if _, e := crypto.AggregateBLSPublicKeys(l); !crypto.IsBLSAggregateEmptyListError(e) {
+			fail("empty public key list")
+		}
 	}
 	ek, _ := crypto.GeneratePrivateKey(crypto.ECDSAP256, rbytes(rr, 32))
-	if _, e := crypto.AggregateBLSPrivateKeys(append(append([]crypto.PrivateKey{}, sks...), ek)); !crypto.IsNotBLSKeyError(e) {
-		fail("non-BLS private key")
-	}
-	if _, e := crypto.AggregateBLSPublicKeys(append([]crypto.PublicKey{ek.PublicKey()}, pks...)); !crypto.IsNotBLSKeyError(e) {
-		fail("non-BLS public key")
+	n := len(sks)
+	positions := []int{0, n / 2, n} // insertion points: first, middle, last
+	for _, pos := range positions {
+		for _, foreignSk := range []crypto.PrivateKey{ek, nil} {
+			l := append(append(append([]crypto.PrivateKey{}, sks[:pos]...), foreignSk), sks[pos:]...)
+			var e error
+			var k crypto.PrivateKey
+			if pn, m := catch(func() { k, e = crypto.AggregateBLSPrivateKeys(l) }); pn {
+				fail(fmt.Sprintf("AggregateBLSPrivateKeys panics with a non-BLS key (%v) at index %d: %s", foreignSk, pos, m))
+			} else if !crypto.IsNotBLSKeyError(e) || k != nil {
+				fail(fmt.Sprintf("non-BLS private key (%v) at index %d of %d: (%v, %v)", foreignSk, pos, n+1, k, e))
+			}
+		}
+		for _, foreignPk := range []crypto.PublicKey{ek.PublicKey(), nil} {
+			l := append(append(append([]crypto.PublicKey{}, pks[:pos]...), foreignPk), pks[pos:]...)
+			var e error
+			var k crypto.PublicKey
+			if pn, m := catch(func() { k, e = crypto.AggregateBLSPublicKeys(l) }); pn {
+				fail(fmt.Sprintf("AggregateBLSPublicKeys panics with a non-BLS key (%v) at index %d: %s", foreignPk, pos, m))
+			} else if !crypto.IsNotBLSKeyError(e) || k != nil {
+				fail(fmt.Sprintf("non-BLS public key (%v) at index %d of %d: (%v, %v)", foreignPk, pos, n+1, k, e))
+			}
+			if pn, m := catch(func() { k, e = crypto.RemoveBLSPublicKeys(aggPk, l) }); pn {
+				fail(fmt.Sprintf("RemoveBLSPublicKeys panics with a non-BLS key (%v) at index %d: %s", foreignPk, pos, m))
+			} else if !crypto.IsNotBLSKeyError(e) || k != nil {
+				fail(fmt.Sprintf("non-BLS key (%v) to remove at index %d of %d: (%v, %v)", foreignPk, pos, n+1, k, e))
+			}
+		}
 	}
 	if _, e := crypto.RemoveBLSPublicKeys(aggPk, []crypto.PublicKey{ek.PublicKey()}); !crypto.IsNotBLSKeyError(e) {
 		fail("non-BLS key to remove")
 	}
-	pos := rr.IntN(len(sigs))
-	bad := append([]crypto.Signature{}, sigs...)
-	bad[pos] = bad[pos][:47]
-	if _, e := crypto.AggregateBLSSignatures(bad); !crypto.IsInvalidSignatureError(e) {
-		fail("short signature in the list")
+	for _, l := range [][]crypto.PublicKey{nil, {}, pks} {
+		for _, from := range []crypto.PublicKey{ek.PublicKey(), nil} {
+			var e error
+			var k crypto.PublicKey
+			if pn, m := catch(func() { k, e = crypto.RemoveBLSPublicKeys(from, l) }); pn {
+				fail(fmt.Sprintf("RemoveBLSPublicKeys panics when removing %d keys from a non-BLS key (%v): %s", len(l), from, m))
+			} else if !crypto.IsNotBLSKeyError(e) || k != nil {
+				fail(fmt.Sprintf("removing %d keys from a non-BLS key (%v): (%v, %v)", len(l), from, k, e))
+			}
+		}
 	}
-	bad[pos] = append([]byte{}, sigs[pos]...)
-	bad[pos][0] &= 0x7F
-	if _, e := crypto.AggregateBLSSignatures(bad); !crypto.IsInvalidSignatureError(e) {
-		fail("malformed signature in the list")
+	// every kind of string that is not an encoding of a curve point, alone at the first, a middle and the last
+	// position, and two different kinds together
+	T := e1Compress(e1Torsion(rr))
+	xgep := fixed(blsP, 48)
+	xgep[0] |= 0x80
+	var offc []byte
+	for {
+		xx := new(big.Int).Mod(new(big.Int).SetBytes(rbytes(rr, 48)), blsP)
+		if fpSqrt(fpAdd(fpMul(fpMul(xx, xx), xx), e1B)) == nil {
+			offc = fixed(xx, 48)
+			offc[0] |= 0x80
+			break
+		}
+	}
+	hdr := append([]byte{}, sigs[0]...)
+	hdr[0] &= 0x7F
+	stray := append([]byte{}, idSig...)
+	stray[1+rr.IntN(47)] = byte(1 + rr.IntN(255))
+	strayLast := append([]byte{}, idSig...)
+	strayLast[47] = 1
+	infUncompressed := append([]byte{0x40}, make([]byte, 47)...)
+	infSign := append([]byte{0xE0}, make([]byte, 47)...)
+	badKinds := map[string][]byte{"47 bytes": sigs[0][:47], "nil": nil, "empty": {}, "49 bytes": append(append([]byte{}, sigs[0]...), 0), "96 bytes": append(append([]byte{}, sigs[0]...), sigs[0]...),
+		"compression flag cleared": hdr, "infinity with a stray byte": stray, "infinity with a non-zero last byte": strayLast, "infinity flag without compression flag": infUncompressed,
+		"infinity with the sign flag": infSign, "x = p": xgep, "x not on the curve": offc}
+	names := make([]string, 0, len(badKinds))
+	for k := range badKinds {
+		names = append(names, k)
+	}
+	sort.Strings(names)
+	for ni, name := range names {
+		for pi, pos := range []int{0, n / 2, n - 1} {
+			if n > 8 && (ni+pi)%3 != 0 {
+				continue
+			}
+			bad := append([]crypto.Signature{}, sigs...)
+			bad[pos] = badKinds[name]
+			var e error
+			var sg crypto.Signature
+			if pn, m := catch(func() { sg, e = crypto.AggregateBLSSignatures(bad) }); pn {
+				fail(fmt.Sprintf("AggregateBLSSignatures panics on a signature (%s) at index %d of %d: %s", name, pos, n, m))
+			} else if !crypto.IsInvalidSignatureError(e) || sg != nil {
+				fail(fmt.Sprintf("signature that is no point encoding (%s: %x) at index %d of %d: (%x, %v)", name, badKinds[name], pos, n, sg, e))
+			}
+			// together with a second defect of another kind and with a point outside G1
+			bad = append(bad, T, badKinds[names[(ni+1)%len(names)]])
+			if sg, e := crypto.AggregateBLSSignatures(bad); !crypto.IsInvalidSignatureError(e) || sg != nil {
+				fail(fmt.Sprintf("two invalid signatures (%s at %d, %s last) not reported: (%x, %v)", name, pos, names[(ni+1)%len(names)], sg, e))
+			}
+		}
 	}
 	// arbitrary E1 points
 	var pts []crypto.Signature
 	var ptsHex []string
 	var prev e1pt
-	prev = e1Decompress(sigs[0])
+	prev, _ = e1DecompressSafe(sigs[0])
+	sum := e1pt{inf: true}
 	for _, kind := range in.Points {
 		var p e1pt
 		switch kind {
 		case "g1":
-			p = e1Decompress(sigs[rr.IntN(len(sigs))])
+			p, _ = e1DecompressSafe(sigs[rr.IntN(len(sigs))])
+			if p.x == nil {
+				p = e1pt{inf: true}
+			}
 		case "torsion":
 			p = e1Torsion(rr)
 		case "random":
@@ -260,8 +605,18 @@ func c04Run(c Case) (Result, error) {
 			p = e1pt{inf: true}
 		case "neg-prev":
 			p = e1Neg(prev)
+		case "dup-prev":
+			p = prev
+		case "order3":
+			p = e1pt{x: big.NewInt(0), y: big.NewInt(2)}
+		case "neg-sum":
+			p = e1Neg(sum)
+		}
+		if p.x == nil {
+			p = e1pt{inf: true}
 		}
 		prev = p
+		sum = e1Add(sum, p)
 		b := e1Compress(p)
 		pts = append(pts, b)
 		ptsHex = append(ptsHex, cqs(hx(b)))
@@ -271,6 +626,15 @@ func c04Run(c Case) (Result, error) {
 		return Result{}, implViolation("aggregating valid encodings failed: %v", err)
 	}
 	ptsId := crypto.IsBLSSignatureIdentity(aggPts)
+	// results are values, arguments are read only
+	if !bytes.Equal(aggSig, aggSig0) || !bytes.Equal(aggSk.Encode(), aggSkEnc0) || !bytes.Equal(aggPk.Encode(), aggPkEnc0) {
+		return Result{}, implViolation("an earlier aggregation result changed after later calls: signature %x (was %x), private key %x (was %x), public key %x (was %x)", aggSig, aggSig0, aggSk.Encode(), aggSkEnc0, aggPk.Encode(), aggPkEnc0)
+	}
+	for i := range sks {
+		if !bytes.Equal(pks[i].Encode(), pkEnc0[i]) || !bytes.Equal(sks[i].Encode(), skEnc0[i]) || !bytes.Equal(sigs[i], sigs0[i]) {
+			return Result{}, implViolation("the aggregation functions modified input %d: public key %x (was %x), private key %x (was %x), signature %x (was %x)", i, pks[i].Encode(), pkEnc0[i], sks[i].Encode(), skEnc0[i], sigs[i], sigs0[i])
+		}
+	}
 	var sch []string
 	for _, s := range in.Scalars {
 		sch = append(sch, cqs(s))
@@ -279,4 +643,13 @@ func c04Run(c Case) (Result, error) {
 		cqs(hx(aggSig)), cqlist(ptsHex), cqs(hx(aggPts)), cqbool(ptsId), cqbool(consistent))
 	return Result{Coq: term, Key: string(c.Input), Nontrivial: len(sks) >= 2 || len(pts) >= 2,
 		Obs: map[string]any{"agg_sk": hx(aggSk.Encode()), "agg_pk": hx(aggPk.Encode()), "agg_sig": hx(aggSig), "agg_points": hx(aggPts), "inconsistencies": why}}, nil
+}
+
+// e1CompressNegSafe returns the encoding of -P for a valid compressed encoding of P (the input itself otherwise)
+func e1CompressNegSafe(b []byte) []byte {
+	P, ok := e1DecompressSafe(b)
+	if !ok {
+		return b
+	}
+	return e1Compress(e1Neg(P))
 }
